@@ -66,7 +66,7 @@ pub enum Pre {
     Velocity { xs: Vec<Vec<f64>>, vs: Vec<Vec<f64>>, w: f64, xps: Vec<Vec<f64>>, xg: Vec<f64> },
     PersonalBest { before: Vec<KV>, cand: Vec<KV> },
     Pheromone { pm: Vec<f64>, pop: Vec<(Vec<usize>, Option<f64>)> },
-    Cro { energy: f64, finite: bool, pairs: Vec<(Vec<u64>, u64)>, height: usize, n_reactants: usize, n_products: usize },
+    Cro { energy: f64, scale: f64, finite: bool, pairs: Vec<(Vec<u64>, u64)>, height: usize, n_reactants: usize, n_products: usize },
 }
 
 struct Open {
@@ -349,20 +349,24 @@ impl<P: HProblem> Obs<P> {
         }
         let main = pops.peek(2);
         let mut energy = buffer;
+        // the magnitude the rounding of the ledger is measured against: the sum of the absolute
+        // terms (no absolute floor - an objective measured in tiny units has tiny energies)
+        let mut scale = buffer.abs();
         let mut finite = buffer.is_finite();
         let mut pairs = Vec::new();
         for (i, ind) in main.iter().enumerate() {
             let f = ind.get_objective().map(|o| o.value()).unwrap_or(f64::NAN);
             let ke = reaction.get(i).map(|m| m.kinetic_energy).unwrap_or(f64::NAN);
             energy += f + ke;
+            scale += f.abs() + ke.abs();
             finite &= f.is_finite() && ke.is_finite();
             pairs.push((P::key(ind.solution()), ke.to_bits()));
         }
-        Pre::Cro { energy, finite, pairs, height: pops.len(), n_reactants: pops.peek(1).len(), n_products: pops.peek(0).len() }
+        Pre::Cro { energy, scale, finite, pairs, height: pops.len(), n_reactants: pops.peek(1).len(), n_products: pops.peek(0).len() }
     }
 
     fn cro_post(&self, kind: &str, pre: Pre, state: &State<P>, d: &mut ObsData) {
-        let Pre::Cro { energy, finite, pairs, height, n_reactants, n_products } = pre else { return };
+        let Pre::Cro { energy, scale, finite, pairs, height, n_reactants, n_products } = pre else { return };
         let (Ok(pops), Ok(reaction), Ok(buffer)) = (state.try_borrow::<Populations<P>>(), state.try_borrow::<ChemicalReaction<P>>(), state.try_get_value::<EnergyBuffer>()) else {
             return;
         };
@@ -377,12 +381,14 @@ impl<P: HProblem> Obs<P> {
             return;
         }
         let mut e2 = buffer;
+        let mut scale2 = buffer.abs();
         let mut fin2 = buffer.is_finite();
         let mut post = Vec::new();
         for (i, ind) in main.iter().enumerate() {
             let f = ind.get_objective().map(|o| o.value()).unwrap_or(f64::NAN);
             let ke = reaction[i].kinetic_energy;
             e2 += f + ke;
+            scale2 += f.abs() + ke.abs();
             fin2 &= f.is_finite() && ke.is_finite();
             if ke < 0.0 {
                 d.violate("C20", format!("cro-negative-kinetic-energy reaction={kind}"), format!("{kind}: molecule {i} has kinetic energy {ke}"));
@@ -392,7 +398,7 @@ impl<P: HProblem> Obs<P> {
         if buffer < 0.0 {
             d.violate("C20", format!("cro-negative-buffer reaction={kind}"), format!("{kind}: energy buffer is {buffer}"));
         }
-        if finite && fin2 && !rel_close(energy, e2, 1e-9) {
+        if finite && fin2 && energy != e2 && (energy - e2).abs() > 1e-9 * scale.max(scale2) + 1e-300 {
             d.violate("C20", format!("cro-energy-not-conserved reaction={kind}"), format!("{kind} ({tname}): total energy {energy} before, {e2} after (difference {})", e2 - energy));
         }
         let changed = post != pairs;
